@@ -421,5 +421,46 @@ PROPS["C07"] = {"gen": c07, "validate_quick": 8,
     "assumptions": ["pre-state satisfies the class's representation invariant"]}
 
 
+ITER_Q = {0: "vertices", 1: "traversal", 2: "repeat", 3: "begin", 4: "step"}
+
+
+def iter_ob(und, n, q, DUP=1, **kw):
+    defs = caps(n, n, DUP)
+    defs.update({"UND": und, "Q": q})
+    ob = {"id": "C08/%s/n%d%s/%s" % ("und" if und else "dir", n, ("d%d" % DUP) if DUP > 1 else "", ITER_Q[q]), "src": "iter.cpp", "defs": defs, "bounds": graph_bounds(defs), "count_ub": True}
+    ob.update(kw)
+    return ob
+
+
+def c08(tier):
+    obs = []
+    for und in (0, 1):
+        for n in (0, 1, 2, 3):
+            obs.append(iter_ob(und, n, 0))
+        for n in ((0, 1, 2, 3) if not und else ((0, 1, 2) if tier == "thorough" else (0, 1))):
+            kw = {"optional_reach": [""]} if n < 3 else {}
+            if und and n == 2:
+                kw.update(mem_gb=12, timeout=3000)
+            obs.append(iter_ob(und, n, 1, **kw))
+        for n in (((2,) if not und else (1,)) if tier == "quick" else ((2, 3) if not und else (1, 2))):
+            obs.append(iter_ob(und, n, 2, optional_reach=[""] if n < 3 else [], **({"mem_gb": 12, "timeout": 3000} if und else {})))
+        for n in ((1, 2, 3) if tier == "quick" else (1, 2, 3, 4)):
+            for q in (3, 4):
+                obs.append(iter_ob(und, n, q, optional_reach=[""] if n < 3 else []))
+        for q in (3, 4):
+            obs.append(iter_ob(und, 2, q, DUP=2, optional_reach=[""]))
+            if tier == "thorough":
+                obs.append(iter_ob(und, 3, q, DUP=2))
+    return obs
+
+
+PROPS["C08"] = {"gen": c08,
+    "bounds": {"quick": "whole traversals: directed graphs of 0..3 vertices, undirected of 0..1 here and 2 in C02 (every edge set, every neighbour order, pre/post increment chosen per step); begin() and single ++ steps from an arbitrary valid position: 1..3 vertices, and 2 vertices with duplicate copies",
+               "thorough": "whole traversals also undirected 2 vertices; steps up to 4 vertices and 3 vertices with duplicates"},
+    "outside": "graphs above the bounds; the six derived classes re-export the same two iterator templates and are covered only through them",
+    "explanation": "Whole traversals on small graphs, plus the inductive decomposition: begin() is the first valid position, one ++ from any valid position reaches the next valid position (or end()), and every edge owns exactly one valid position.",
+    "assumptions": ["states satisfy RI_dir / RI_und (with duplicates where stated)"]}
+
+
 def obligations(prop, tier):
     return PROPS[prop]["gen"](tier)
